@@ -227,7 +227,8 @@ def good_client(sp, rng, tag, j, n, board, out, slow=False):
     conn = None
     step = "connect"
     try:
-        conn = sp.good(sync_timeout=CLIENT_TIMEOUT)
+        my_id = "%05x" % rng.getrandbits(20)
+        conn = sp.good(sync_timeout=CLIENT_TIMEOUT, identity=my_id)
         root = conn.root
 
         def call(name, *args):
@@ -238,6 +239,16 @@ def good_client(sp, rng, tag, j, n, board, out, slow=False):
         echo = None if slow else root.echo      # the ordinary proxy path as well, on the fast servers
         step = "whoami"
         ident = tuple(call("whoami"))
+        step = "identity"
+        cred, endpoints = call("identity")
+        if sp.auth and cred != my_id:
+            problems.append(("crosstalk", "the connection carries the credentials %r of another client (mine are %r)" % (cred, my_id)))
+        try:
+            mine = conn._channel.stream.sock.getsockname()
+        except Exception:
+            mine = None
+        if not sp.unix and endpoints and mine and tuple(endpoints[1])[:2] != tuple(mine)[:2]:
+            problems.append(("crosstalk", "the connection carries the peer address %r of another client (mine is %r)" % (endpoints[1], mine)))
         step = "set"
         call("set", "k", tok)
         if not slow:
@@ -440,6 +451,7 @@ def run_round(sc, sp, cfg, rname, hostile_classes, n_good, rng, ridx, seen_token
     # ---- state and liveness first: they decide how unanswered requests are read
     try:
         st = sp.state()
+        sc.maximum("yield_injection_points_passed_in_one_server", int(st.get("yield_injections", 0))) if hasattr(sc, "maximum") else None
         sc.count("control_pipe_answers")
     except rn.ChildError as e:
         sc.inconclusive("%s: control pipe: %s" % (tag, str(e)[:300]))
